@@ -16,6 +16,12 @@ Theorem C19_transport_uses_config : forall ops s n k tls,
 Proof. exact run_spec. Qed.
 Print Assumptions C19_transport_uses_config.
 
+(* ... and no other connection limit of http.Transport is set: the configured limits are the
+   only ones in force. *)
+Theorem C19_no_other_limits : forall ops s, Forall (fun t => t_other t = 0) (run set_config s ops).
+Proof. exact run_no_other_limits. Qed.
+Print Assumptions C19_no_other_limits.
+
 Theorem C19_set_then_new : forall c tls s, uses (new_transport (set_config s c) tls) c.
 Proof. exact set_then_new. Qed.
 Print Assumptions C19_set_then_new.
